@@ -16,6 +16,8 @@ for _n in ['eq', 'ne', 'eeq', 'ene', 'gt', 'gte', 'lt', 'lte', 'rx', 'notrx', 'l
     OBLIGATIONS.append(ob(f'C02.op.table.{_n}', OPS + f'c11_op_{_n}', f'Op::from maps every documented spelling of the operator `{_n}` to that operator (same harness as C11.alias.op.{_n})', engine='K', units=['operators']))
 OBLIGATIONS.append(ob('C02.op.negation', OPS + 'c03_negate_contract', 'each negative operator is the documented complement of its positive counterpart: contract of Op::negate (same as C03.negate.pairs)', engine='K', units=['operators'], twin=OPS + 't03_negate_pairs'))
 OBLIGATIONS.append(ob('C02.cmp.int.fractional', CMP + 'c02_cmp_int_fractional', 'Int arm of conforms with a right-hand value k + 0.5 (all i32 k) against all i32 column values: compared as real numbers for all 8 operators, never truncated', units=['cmp'], complete=False, bound='column value and k in i32, fraction .5'))
-CANARIES = [dict(harness=CMP + 'canary_cmp_must_fail', units=['cmp'])]
+OBLIGATIONS.append(ob('C02.cmp.string', 'verif_frag::strarm::c12_arm_plain', 'String arm of conforms (whole block verbatim on a shim world): a text column against a literal without wildcard compares by text equality (`=`), `!=` is the complement (same harness as C12.arm.plain)', units=['strarm'], complete=False, bound='concrete witness texts'))
+OBLIGATIONS.append(ob('C02.cmp.string.pattern', 'verif_frag::strarm::c12_arm_glob', 'String arm of conforms: a text column against a wildcard literal compares by pattern (same harness as C12.arm.glob)', units=['strarm'], complete=False, bound='concrete witness texts'))
+CANARIES = [dict(harness='verif_frag::strarm::canary_strarm_must_fail', units=['strarm']), dict(harness=CMP + 'canary_cmp_must_fail', units=['cmp'])]
 ASSUMPTIONS = ['float arm: stated for non-NaN operands', 'date arm: start <= finish']
 NOT_COVERED = ['get_field_value: which attribute is compared', 'literal -> number coercion (Variant::to_int / to_float, parse_filesize as a whole)', 'string arm (regex)', 'type dispatch on field_value.get_type()']
